@@ -658,24 +658,12 @@ impl<'a> Lexer<'a> {
                     // first time through will be the second new line type character
 
                     // add character and create token
+                    // type may still be whitespace if this sequence started with spaces
+                    self.current_token_type = Some(TokenType::Subexpression);
                     self.current_characters.push(c);
 
                     // could've arrived here by passing through whitespace state
-                    // check len of characters so see if 2 tokens need to be created
-                    if self.current_characters.len() > 2 {
-                        trace!("Creating whitespace token from extra characters");
-                        // have extra characters, split them into a whitespace token
-                        let spaces_characters = &self.current_characters[..self.current_characters.len() - 2];
-                        next_token = Some(LexerToken::new(
-                            spaces_characters.to_string(),
-                            TokenType::Whitespace,
-                            self.token_start_row,
-                            // actual token is determined after current, minus 1 to make accurate
-                            self.token_start_column,
-                        ));
-
-                        self.current_characters = self.current_characters[(self.current_characters.len() - 2)..].to_string();
-                    }
+                    // leading spaces stay part of this token, same as spaces between the two new lines
 
                     // wrap coordinates to new line
                     self.text_column = 0;
